@@ -21,7 +21,17 @@ def load():
 
 
 def run_with_known(job, spec_blocks, kf, prop, keep=False):
-    entries = [e for e in kf.get("open", []) if e["job"] == job.name]
+    import re
+    # a finding that covers WHOLE jobs (input classes that are separate jobs):
+    # those jobs are not run while the finding is open
+    for e in kf.get("open", []):
+        if e.get("skip_jobs") and re.search(e["skip_jobs"], job.name) and prop in e["properties"]:
+            r = pipeline.JobResult(job)
+            r.skipped_known = e["id"]
+            r.vacuity_ok = True
+            r.known_lines = []
+            return r
+    entries = [e for e in kf.get("open", []) if e.get("job") == job.name]
     j = job
     if entries:
         j = copy.copy(job)
